@@ -416,7 +416,9 @@ func (d *driver) pickOp() (model.Op, bool) {
 	if d.rng.Intn(12) == 0 {
 		all := append(append([]int{}, lists...), objs...)
 		r := all[d.rng.Intn(len(all))]
-		switch d.rng.Intn(3) {
+		switch d.rng.Intn(4) {
+		case 3:
+			return mk("Text", r), true
 		case 0:
 			if d.real.Derived == 0 {
 				same := lists
@@ -864,6 +866,31 @@ func cmdDrive(args []string) int {
 		}
 		for s := 0; s < nsteps; s++ {
 			d.step()
+			if d.bigObj && s == 3 {
+				// an object whose every field holds a container, copied and merged
+				none := model.Val{K: "none"}
+				before := len(d.cur)
+				logged(model.Op{Op: "NewList", V: none, Vs: []model.Val{{K: "int", V: 1}}})
+				logged(model.Op{Op: "NewObject", V: none, Vs: []model.Val{{K: "str", V: 1}, {K: "int", V: 2}}})
+				logged(model.Op{Op: "NewObject", V: none})
+				if len(d.cur) == before+3 {
+					li, ob, host := before+1, before+2, before+3
+					o := model.Op{Op: "Set", R: host, V: none}
+					for k := 1; k <= d.nkeys; k++ {
+						ref := li
+						if k%2 == 0 {
+							ref = ob
+						}
+						o.Vs = append(o.Vs, model.Val{K: "str", V: k}, model.Val{K: "ref", V: ref})
+					}
+					logged(o)
+					logged(model.Op{Op: "CloneO", R: host, V: none})
+					logged(model.Op{Op: "NativeCheck", R: host, V: none})
+					logged(model.Op{Op: "Text", R: host, V: none})
+					logged(model.Op{Op: "Add", R: li, V: none, Vs: []model.Val{{K: "int", V: 5}}})
+					logged(model.Op{Op: "ClearO", R: host, V: none})
+				}
+			}
 			if big && s%7 == 3 {
 				// a container at the very end of the longest list, then a deep copy of that list
 				ls := d.ids("L")
@@ -1028,8 +1055,34 @@ func cmdDrive(args []string) int {
 				logged(model.Op{Op: "NativeCheck", R: outerB, V: none})
 			})
 		}
+		// long lists whose LAST elements are containers (block-wise or parallel processing that drops a remainder)
+		for si, n := range []int{1027, 2051, 4099 + int(*seed%4)} {
+			n := n
+			scen(20500+si, func(d *driver, logged func(model.Op) model.Val) {
+				a := logged(model.Op{Op: "NewListOf", I: n, V: model.Val{K: "int", V: 3}}).V
+				inner := logged(model.Op{Op: "NewList", V: none, Vs: []model.Val{{K: "int", V: 1}}}).V
+				innerO := logged(model.Op{Op: "NewObject", V: none, Vs: []model.Val{{K: "str", V: 1}, {K: "int", V: 2}}}).V
+				logged(model.Op{Op: "Replace", R: a, I: n - 1, V: model.Val{K: "ref", V: inner}})
+				logged(model.Op{Op: "Replace", R: a, I: n - 2, V: model.Val{K: "ref", V: innerO}})
+				logged(model.Op{Op: "Replace", R: a, I: n - 3, V: model.Val{K: "str", V: 2}})
+				logged(model.Op{Op: "NativeCheck", R: a, V: none})
+				logged(model.Op{Op: "IndexOf", R: a, V: model.Val{K: "ref", V: inner}})
+				logged(model.Op{Op: "Contains", R: a, V: model.Val{K: "str", V: 2}})
+				logged(model.Op{Op: "Text", R: a, V: none})
+				b := logged(model.Op{Op: "Clone", R: a, V: none}).V
+				if *derived == 0 {
+					logged(model.Op{Op: "Equals", R: a, J: b, V: none})
+				}
+				logged(model.Op{Op: "SubList", R: a, I: 1, J: 0, V: none})
+				logged(model.Op{Op: "ForEach", R: a, I: 3, V: none})
+				logged(model.Op{Op: "MapId", R: a, V: none})
+				logged(model.Op{Op: "FilterAll", R: a, V: none})
+				logged(model.Op{Op: "Reverse", R: a, V: none})
+				logged(model.Op{Op: "NativeCheck", R: a, V: none})
+			})
+		}
 		// nesting chains deeper than any depth limit an implementation might put on its recursions
-		for si, depth := range []int{140, 260} {
+		for si, depth := range []int{140, 260, 600, 1100} {
 			depth := depth
 			scen(21000+si, func(d *driver, logged func(model.Op) model.Val) {
 				cur := logged(model.Op{Op: "NewList", V: none, Vs: []model.Val{{K: "int", V: 7}}}).V
@@ -1051,6 +1104,11 @@ func cmdDrive(args []string) int {
 					logged(model.Op{Op: "Equals", R: cur, J: cl.V, V: none})
 				}
 				logged(model.Op{Op: "NativeCheck", R: 1, V: none})
+				// the innermost container of the copy (the first cell the copy created) changes: the original must not
+				if cl.K == "ref" && cur+1 <= len(d.cur) && d.cur[cur].T == "L" {
+					logged(model.Op{Op: "Add", R: cur + 1, V: none, Vs: []model.Val{{K: "int", V: 9}}})
+					logged(model.Op{Op: "Text", R: cur, V: none})
+				}
 			})
 		}
 	}
